@@ -26,7 +26,7 @@ ASSUMPTIONS = [
     "value-space mapping of DESIGN appendix D: xsd:int/long/double/boolean/string/dateTime/anyURI and prov:QUALIFIED_NAME are compared as values, any other datatype as (lexical, datatype)",
 ]
 REQUIRED_CLASSES = {"all": ["has:bundle", "has:default_ns", "has:anon_relation", "value:float", "value:lang", "value:lit",
-                            "value:dt", "string:multiline", "string:backslash", "string:quote"]}
+                            "value:dt", "string:multiline", "string:backslash", "string:quote", "touched_before_printing"]}
 
 
 def budget(tier):
@@ -70,6 +70,10 @@ def check(case, ctx):
     has_rel_opt = any(not m["type"].endswith(("#Entity", "#Agent", "#Activity")) for ms in b.model for m in ms)
     ctx.nontrivial(has_rel_opt or len(b.scopes) > 1 or nt)
     want = canon(d)
+    if len(case["ops"]) % 2:
+        from ..touch import readonly_touch
+        readonly_touch(d, len(case["ops"]))
+        ctx.count("touched_before_printing")
     try:
         text = d.get_provn()
     except Exception as e:
